@@ -3,6 +3,7 @@ package main
 import (
 	"fmt"
 	"os"
+	"runtime"
 	"path/filepath"
 	"sort"
 	"strings"
@@ -359,6 +360,13 @@ func seqWord(c *explore.Ctx, kind string, word string, scratch string, n int) *e
 			before := ""
 			if kind != "mem" {
 				before = dirListing(dir)
+			}
+			if len(open) > 0 {
+				// the holder's lock must not depend on anything the garbage collector may finalise
+				for g := 0; g < 3; g++ {
+					runtime.GC()
+					time.Sleep(200 * time.Microsecond)
+				}
 			}
 			db, err := pogreb.Open(dir, &pogreb.Options{FileSystem: rf, BackgroundSyncInterval: -1})
 			if len(open) > 0 {
